@@ -1,7 +1,8 @@
 // Driving code of the C15 harness: one real space storage on any-store per history, the real deletionstate,
-// deletionmanager (deleter driven step by step through the verif hook), headstorage, DiffManager and the real
-// synctree.PutSyncTree / BuildSyncTreeOrGetRemote; the tree manager, the sync client (the "remote peer") and the
-// head-storage observer (which replaces diffSyncer's asynchronous FIFO) are harness doubles.
+// deletionmanager (deleter driven step by step through the verif hook), headstorage, the real headsync component
+// (headsync.New: its diffSyncer registers itself as the head-storage observer and feeds its own DiffManager through
+// the asynchronous headUpdater queue; see headsync.go in this directory) and the real synctree.PutSyncTree /
+// BuildSyncTreeOrGetRemote; the tree manager and the sync client (the "remote peer") are harness doubles.
 package main
 
 import (
@@ -17,8 +18,6 @@ import (
 	"github.com/anyproto/any-store/query"
 
 	"github.com/anyproto/any-sync/app"
-	"github.com/anyproto/any-sync/app/ldiff"
-	"github.com/anyproto/any-sync/app/logger"
 	"github.com/anyproto/any-sync/commonspace/deletionmanager"
 	"github.com/anyproto/any-sync/commonspace/deletionstate"
 	"github.com/anyproto/any-sync/commonspace/headsync"
@@ -321,12 +320,13 @@ type World struct {
 	dm   deletionmanager.DeletionManager
 	del  deletionmanager.Deleter
 	tm   *treeMgr
-	diff *headsync.DiffManager
+	hs   headsync.HeadSync // the real head sync component; advertised ids = hs.AllIds()
+	pipe *pipeline         // observer registrations / state-storage guard of the running hs (headsync.go)
 	rem  *remote
-	// notifications of the head storage: pending (delivered in FIFO order after the current call) and all
-	// delivered since the last start
-	pending []headstorage.HeadsEntry
-	hist    []headstorage.HeadsEntry
+	// notifications of the head storage since the last start, in the order the head storage made them
+	hist []headstorage.HeadsEntry
+	drainSeq int // sentinel counter of drain()
+	nobs     int // observers the head sync component registered at its last start
 	// harness-held settings state
 	slog [][]string
 	sset map[string]struct{}
@@ -335,20 +335,22 @@ type World struct {
 	observed spacestorage.SpaceStorage
 }
 
+// OnUpdate: the World is the one observer registered at the real head storage object; it records the notification
+// (for late re-delivery) and hands it, synchronously and in registration order, to the observers the running
+// components registered through the space storage they were given (the real diffSyncer).
 func (w *World) OnUpdate(e headstorage.HeadsEntry) {
+	if w.pipe == nil {
+		return // start-up (deletionstate.Run): no observer is registered yet
+	}
 	cp := e
 	cp.Heads = append([]string(nil), e.Heads...)
-	w.pending = append(w.pending, cp)
+	w.hist = append(w.hist, cp)
+	w.pipe.deliver(e)
 }
 
-func (w *World) flush() {
-	for len(w.pending) > 0 {
-		e := w.pending[0]
-		w.pending = w.pending[1:]
-		w.hist = append(w.hist, e)
-		w.diff.UpdateHeads(e)
-	}
-}
+// flush waits until every notification made so far has gone through the observer pipeline (diffSyncer.OnUpdate ->
+// headUpdater queue -> DiffManager.UpdateHeads).
+func (w *World) flush() { w.pipe.drain() }
 
 func NewWorld(f *Fixtures) *World {
 	f.seq++
@@ -365,6 +367,7 @@ func NewWorld(f *Fixtures) *World {
 
 // assemble builds the in-memory components over w.sp, as a space start does: deletionstate.Run, FillDiff.
 func (w *World) assemble() {
+	w.stopHeadSync()
 	a := new(app.App)
 	real := deletionstate.New()
 	w.ds = &recState{ObjectDeletionState: real}
@@ -379,19 +382,19 @@ func (w *World) assemble() {
 	a.Register(w.dm)
 	must(w.dm.Init(a))
 	w.del = deletionmanager.VerifDeleter(w.dm)
-	w.diff = headsync.NewDiffManager(ldiff.New(32, 256), w.sp, fakeSyncAcl{l: w.f.acl}, logger.NewNamed("verif"), ctx, w.ds)
-	must(w.diff.FillDiff(ctx))
 	if w.observed != w.sp {
 		// one observer per head storage object (Reset keeps the space storage)
 		w.sp.HeadStorage().AddObserver(w)
 		w.observed = w.sp
 	}
+	w.hist = nil
+	w.startHeadSync()
 	w.rem = &remote{RequestFactory: synctree.NewRequestFactory(w.f.spaceId), w: w}
-	w.pending, w.hist = nil, nil
 	w.sset = map[string]struct{}{}
 }
 
 func (w *World) Restart() {
+	w.stopHeadSync()
 	must(w.db.Close())
 	db, err := anystore.Open(ctx, filepath.Join(w.dir, "space.db"), &anystore.Config{SQLiteConnectionOptions: map[string]string{"synchronous": "off"}})
 	must(err)
@@ -402,6 +405,10 @@ func (w *World) Restart() {
 }
 
 func (w *World) Close() {
+	func() {
+		defer func() { _ = recover() }()
+		w.stopHeadSync()
+	}()
 	_ = w.db.Close()
 	_ = os.RemoveAll(w.dir)
 }
@@ -527,7 +534,9 @@ func (w *World) Stale(n int) string {
 	if n < 0 || n >= len(w.hist) {
 		return "ONoTree"
 	}
-	w.diff.UpdateHeads(w.hist[n])
+	// late re-delivery: the observer is called once more with an earlier notification
+	w.pipe.deliver(w.hist[n])
+	w.flush()
 	return "OOk"
 }
 
@@ -589,7 +598,7 @@ type Obs struct {
 
 func (w *World) Observe(univ []string) []Obs {
 	inIdx := map[string]bool{}
-	for _, id := range w.diff.AllIds() {
+	for _, id := range w.hs.AllIds() {
 		inIdx[id] = true
 	}
 	coll, err := w.db.Collection(ctx, objecttree.CollName)
